@@ -6,7 +6,7 @@
    signer — the VM itself is not modelled here; the block the ledger accepts is C06's matter, here the
    conditions a packed prefix satisfies are proved. *)
 From NG Require Import Common.Tactics Admission.Fee Admission.FeeProofs Admission.Admit Admission.AdmitProofs
-  Admission.Conflicts Admission.Refresh Admission.VMScripts Admission.VMFeeProofs Admission.Examples Mempool.Model Mempool.Spec Mempool.Examples.
+  Admission.Conflicts Admission.Refresh Admission.VMScripts Admission.VMFeeProofs Admission.PackSize Admission.Examples Mempool.Model Mempool.Spec Mempool.Examples.
 From NG Require VM.Model.
 Open Scope N_scope.
 
@@ -184,6 +184,32 @@ Theorem C07_pack_valid : forall U bal s max_tx max_size max_sysfee hdr,
 Proof. exact pack_valid. Qed.
 Print Assumptions C07_pack_valid.
 
+(* the same with the real size function of a block: header part + var-uint of the transaction count (1 byte up to
+   252, 3 from 253, 5 from 65536; [count_prefix_is_encoding] ties it to C17's encoder) + the transactions.
+   The code charges the prefix of the count before the size cut, which is never smaller than the final one;
+   so the packed block fits for every count, across the var-uint boundaries *)
+Theorem C07_pack_valid_real_size : forall U bal s max_tx max_size max_sysfee hdr0,
+  Inv U bal s ->
+  let b := apply_policy_real max_tx max_size max_sysfee hdr0 (vtxs s) in
+  (exists r, vtxs s = b ++ r)
+  /\ (max_tx <> O -> (length b <= max_tx)%nat)
+  /\ (b <> [] -> block_size hdr0 b <= max_size)
+  /\ total_sysfee b <= max_sysfee.
+Proof. exact pack_valid_real. Qed.
+Print Assumptions C07_pack_valid_real_size.
+
+Theorem C07_count_prefix_is_encoding : forall k, (Z.of_nat k <= 4294967295)%Z ->
+  count_prefix k = N.of_nat (length (Wire.write_varuint (Z.of_nat k))).
+Proof. exact count_prefix_is_encoding. Qed.
+Print Assumptions C07_count_prefix_is_encoding.
+
+(* charging a one-byte count prefix whatever the count is two bytes short from 253 transactions on *)
+Theorem C07_pack_short_count_prefix_refuted :
+  let b := apply_policy 0 (100 + 1 + 2530) 100000 (fun _ => 100 + 1) (tiny_pool 260) in
+  length b = 253%nat /\ 100 + 1 + 2530 < block_size 100 b.
+Proof. exact pack_short_count_prefix_refuted. Qed.
+Print Assumptions C07_pack_short_count_prefix_refuted.
+
 (* ... and, being a prefix of a pool with the C08 invariant: no duplicates, no conflicts, pool order,
    every payer can pay for all of it, at most one response per oracle request *)
 Theorem C07_pack_inherits_pool_invariant : forall U bal s b r,
@@ -206,6 +232,11 @@ Proof. exact pack_short_header_refuted. Qed.
 Print Assumptions C07_pack_short_header_refuted.
 
 (* non-vacuity *)
+Example C07_example_pack_real_size :
+  length (apply_policy_real 0 (100 + 1 + 2530) 100000 100 (tiny_pool 260)) = 252%nat
+  /\ length (apply_policy_real 0 (100 + 3 + 2530) 100000 100 (tiny_pool 260)) = 253%nat
+  /\ length (apply_policy_real 300 (100 + 3 + 2529) 100000 100 (tiny_pool 260)) = 252%nat.
+Proof. exact pack_real_example. Qed.
 Example C07_example_vm_run :
   let keys := [repeat 1%Z 33; repeat 2%Z 33; repeat 3%Z 33] in
   let sigs := [repeat 7%Z 64; repeat 8%Z 64] in
